@@ -261,7 +261,7 @@ harnesses! {
     #[kani::unwind(7)] fn c05_winding3_g3(s) { winding3(s, 3) }
     #[kani::unwind(7)] fn c05_winding4_g2(s) { winding4(s, 2) }
     #[kani::unwind(7)] fn c05_winding_degenerate(s) { winding_degenerate(s, 3) }
-    #[kani::unwind(7)] fn c05_orient_shell_g2(s) { orient_shell(s, 2) }
+    #[kani::unwind(7)] fn c05_orient_shell_g1(s) { orient_shell(s, 1) }
     #[kani::unwind(7)] fn c05_ring_rewind_g2(s) { ring_rewind(s, 2) }
     #[kani::unwind(6)] fn c05_sanity_must_fail(s) {
         ring_area_int3(s, 2, 0);
